@@ -387,7 +387,7 @@ Section Covers.
       | VItem t' => cov sc false (TId t')
       | VStruct ps => cov sc false (TProps ps deny)
       | VTuple ts => cov sc false (TTuple ts)
-      | VSimple => false
+      | VSimple => null_only sc       (* a unit variant takes the payload null *)
       end.
 
     (* a branch of oneOf/anyOf against an externally tagged enum: a string enum
@@ -463,9 +463,7 @@ Section Covers.
                            | Some (_, vr) =>
                                match v_det vr with
                                | VStruct ps => struct_case ty props req ap (Some tg) nn ps deny
-                               | VSimple =>
-                                   (negb deny
-                                    || (is_ap_false ap && forallb (fun kv => ustr_eqb (fst kv) tg) props))
+                               | VSimple => true   (* the other members are ignored, even under deny *)
                                | _ => false
                                end
                            | None => false
